@@ -70,6 +70,10 @@ void PDU::copy_inner_pdu(const PDU& pdu) {
     if (pdu.inner_pdu()) {
         inner_pdu(pdu.inner_pdu()->clone());
     }
+    else {
+        // The source has no inner PDU: a copy must not keep the old one
+        inner_pdu(0);
+    }
 }
 
 void PDU::prepare_for_serialize() {
